@@ -4,6 +4,7 @@ import numpy as np
 from vlib import strat as S, oracles as O, groups as GR, hkl as HK
 
 ID = "C06"
+SWITCH_OFF = 6        # every 6th case runs with xfab.CHECKS switched off (results must not depend on it)
 RULE = ("same case space as C05 (one unit per setting, conforming cell, gap-constructed shell, name/number, tools/laue), "
         "output_stl True and False. Oracle: Laue orbits {+-hR} from the exact integer rotations, brute-force lattice "
         "enumeration with operator extinction, metric-tensor sin(theta)/lambda; boundary semantics by re-calling with "
